@@ -11,7 +11,7 @@
    took e from its queue. *)
 From Coq Require Import List ZArith Bool.
 Import ListNotations.
-From Goat Require Import Model.Client Proofs.ClientBase Proofs.ClientInv Proofs.ClientLog Proofs.ClientProps.
+From Goat Require Import Model.Client Proofs.ClientBase Proofs.ClientInv Proofs.ClientLog Proofs.ClientProps Proofs.ClientRoute.
 Open Scope Z_scope.
 
 (* ids: the ids of calls are pairwise distinct as 64-bit values as long as fewer than 2^64 ids have been
@@ -64,11 +64,32 @@ Theorem C05_route_queue : forall ls s, lrun init ls = Some s ->
 Proof. exact C05_queue_l. Qed.
 Print Assumptions C05_route_queue.
 
-(* non-interference (partial form: successes): a reply / a stream message reported to call c is the body of an
-   envelope that c took from its own queue, that was read from the transport with c's id and routed to c.
-   C05_noninterference_partial: the full statement - "the sequence of envelopes call c takes is EXACTLY, in
-   order and once each, the sub-sequence of the read log routed to c" (C05_route_exact) - is tested on every
-   run (spec_c05 on the observed histories) but not proved here; see docs/notes-cl.md. *)
+(* route, EXACT accounting per call c (history invariant; [routed c l] / [taken c l] / [dropped c l] are the
+   envelopes of the EvRead _ (Some c) / EvTake c _ / EvDrop c _ events of l, in order): the envelopes the read loop
+   routed to c are, in order and once each, those c has taken from its queue, then the one still in its queue,
+   then the one the read loop is holding for it, then the dropped one. Hence the sequence a call takes is exactly
+   the routed sub-sequence of the read log minus its undelivered tail.
+   What is dropped and when: at most ONE envelope per call, namely the envelope the read loop was holding for c
+   (c's one-slot queue being full) at the moment it found that c had unregistered (its done channel closed); it
+   had been read for c; while c is registered, and while the read loop holds something for c, nothing of c's is
+   dropped. Envelopes arriving later for that id are routed to nobody (C05_route_owner: unhandled). *)
+Theorem C05_route_exact : forall ls s, lrun init ls = Some s ->
+  forall c k, nth_error (calls s) c = Some k ->
+    routed c (log s) = taken c (log s) ++ chan_q k ++ held s c ++ dropped c (log s) /\
+    (length (dropped c (log s)) <= 1)%nat /\
+    (dropped c (log s) <> [] -> k_reg k = false /\ cclosed (k_chan k) = true /\ held s c = []) /\
+    (forall e, In (EvDrop c e) (log s) -> In (EvRead e (Some c)) (log s)).
+Proof. exact C05_route_exact_l. Qed.
+Print Assumptions C05_route_exact.
+
+(* ... and an index that is not a call is routed nothing and takes nothing *)
+Theorem C05_route_nobody : forall ls s, lrun init ls = Some s ->
+  forall c, (length (calls s) <= c)%nat -> routed c (log s) = [] /\ taken c (log s) = [].
+Proof. exact C05_route_nobody_l. Qed.
+Print Assumptions C05_route_nobody.
+
+(* non-interference, successes: a reply / a stream message reported to call c is the body of an envelope that c took
+   from its own queue, that was read from the transport with c's id and routed to c *)
 Theorem C05_noninterference_partial : forall ls s, lrun init ls = Some s ->
   (forall c b, In (EvUnaryRet c (UOk b)) (log s) -> backed s c b) /\
   (forall c b, In (EvRecvRet c (RMsg b)) (log s) -> backed s c b).
@@ -87,5 +108,14 @@ Example C05_ex : exists ls s,
   run_trace [ANewUnary 7 false; ANewStream false; ADeliver (msg 2 50); ADeliver (reply 99 60); ADeliver (reply 1 8); ARecv 1 false] = (ls, s) /\
   lrun init ls = Some s /\ counter s = 2 /\
   In (EvUnaryRet 0 (UOk 8)) (log s) /\ In (EvRecvRet 1 (RMsg 50)) (log s) /\ In (EvUnhandled 99) (log s) /\
-  In (EvTake 0 (reply 1 8)) (log s) /\ In (EvRead (reply 99 60) None) (log s) /\ In (EvWrite (req_env 1 7)) (log s).
+  In (EvTake 0 (reply 1 8)) (log s) /\ In (EvRead (reply 99 60) None) (log s) /\ In (EvWrite (req_env 1 7)) (log s) /\
+  routed 1 (log s) = [msg 2 50] /\ taken 1 (log s) = [msg 2 50].
 Proof. eexists. eexists. split. vm_compute. reflexivity. vm_compute. intuition. Qed.
+
+(* a stream that stops reading: one message taken by its loop, one queued, one held by the read loop; the caller
+   cancels: the held one is dropped (the only kind of drop) *)
+Example C05_ex_drop : exists ls s,
+  run_trace [ANewStream false; ADeliver (msg 1 50); ADeliver (msg 1 51); ADeliver (msg 1 52); ACancel 0] = (ls, s) /\
+  lrun init ls = Some s /\ routed 0 (log s) = [msg 1 50; msg 1 51; msg 1 52] /\ taken 0 (log s) = [msg 1 50] /\
+  dropped 0 (log s) = [msg 1 52] /\ (exists k, nth_error (calls s) 0 = Some k /\ chan_q k = [msg 1 51] /\ k_reg k = false) /\ held s 0 = [].
+Proof. eexists. eexists. split. vm_compute. reflexivity. vm_compute. intuition. eexists. intuition. Qed.
